@@ -53,18 +53,12 @@ Example ex_state :
     /\ obs_state st = L [L [I 1; L [L [I 1; L [I 4]]; L [I 2; L [I 4]]]; L [L [I 4; I 2]]]].
 Proof. eexists. eexists. split; vm_compute; reflexivity. Qed.
 
-(* "returns normally" is FALSE of the code as written: a strategy asking one unit through the id `any` and one through a
-   specific id fits (each entry on its own) a worker holding a single unit, and the allocation is then refused
-   (ValueError, code 2).  World, state and invocation satisfy every hypothesis of the C15 theorems. *)
+(* regression case (former finding F-cw1, repaired in /repo 402c33a): a strategy asking one unit through the id `any` and
+   one through a specific id no longer "fits" a worker holding a single unit, so schedule() returns (nothing is placed,
+   the request stays queued) instead of raising *)
 Definition rf_wd : world := [(1, [mkS 1 1 10 [(1, 0, 1); (1, 11, 1)]])].
 Definition rf_inv : invocation := mkInv 0 [mkT 1 1 100] [mkP 1 [mkW 1 [(1, 11, 1); (9, 19, 7)] [(1, 0)]]] None.
-Example returns_normally_refuted :
-  world_wf rf_wd /\ bs_pos rf_wd /\ Inv_st rf_wd (cw_start rf_wd [1]) /\ cw_schedule rf_wd false rf_inv (cw_start rf_wd [1]) = Err 2.
-Proof.
-  assert (Hw : world_wf rf_wd).
-  { intros mid ss H. unfold rf_wd in H. cbn [zassoc] in H. destruct (1 =? mid); [|discriminate]. injection H as <-. cbn. repeat constructor; cbn; intuition lia. }
-  split; [exact Hw|]. split.
-  - intros mid ss s H Hs. unfold rf_wd in H. cbn [zassoc] in H. destruct (1 =? mid); [|discriminate]. injection H as <-.
-    destruct Hs as [<-|[]]; cbn; lia.
-  - split; [apply cw_start_inv; [exact Hw|repeat constructor; intros []]|vm_compute; reflexivity].
-Qed.
+Example competing_requests_return :
+  exists st', cw_schedule rf_wd false rf_inv (cw_start rf_wd [1]) = Ok (st', mkD [] [] []) /\
+              obs_state st' = L [L [I 1; L [L [I 1; L [I 1]]]; L [L [I 1; I 1]]]].
+Proof. eexists. split; vm_compute; reflexivity. Qed.
